@@ -28,49 +28,64 @@ Theorem fai_index_correct :
 Proof. exact newindex_render. Qed.
 Print Assumptions fai_index_correct.
 
-(** Every record r of a well-formed file, every range 0 <= s <= e <= length
-    and EVERY script of Read calls (any buffer sizes, including empty buffers
-    and Reset): SeqRange succeeds and each Read returns exactly what an ideal
-    reader over bases s..e returns — min(size, remaining) bases, io.EOF
-    exactly when fewer bases than the buffer size were left. *)
+(** The io.ReaderAt under File is quantified by its contract (Model/Fai.v,
+    [read_at]): ReadAt(p, off) delivers min(len p, size-off) bytes; io.EOF is
+    mandatory when that is fewer than len p, excluded when the bytes do not
+    end at the end of the source, and FREE (nil or io.EOF) when all len p
+    bytes were delivered and they end exactly at the end of the source.
+    [ch : nat -> bool] is that free choice for the 1st, 2nd, ... ReadAt call
+    of the history, [c] the number of calls made before.
+
+    Every record r of a well-formed file, every range 0 <= s <= e <= length,
+    EVERY script of Read calls (any buffer sizes, including empty buffers and
+    Reset) and EVERY contract-conforming ReaderAt behaviour: SeqRange succeeds
+    and the results satisfy the io.Reader contract over bases s..e
+    ([conforms]: each Read returns exactly the next min(size, remaining)
+    bases; io.EOF when fewer than size were left, nil when more were left,
+    either when exactly size were left).  When the ReaderAt never reports
+    io.EOF together with the last bytes (bytes.Reader, os.File) the results
+    are exactly the ideal reader's. *)
 Theorem fai_read_range :
-  forall f rs1 r rs2 s e sizes,
+  forall f rs1 r rs2 s e sizes ch c,
     wf f = true -> lines_fit (render f) = true -> f_recs f = rs1 ++ r :: rs2 -> 0 <= s <= e -> e <= zlen (bases r) ->
     exists idx q,
       newindex (render f) = Ok idx /\ file_seqrange idx (s_name r) s e = Ok q /\
-      seq_script (render f) q sizes = ideal_script (slice (bases r) s e) (slice (bases r) s e) sizes.
+      conforms (slice (bases r) s e) (slice (bases r) s e) sizes (seq_script (render f) ch c q sizes) = true /\
+      ((forall n, ch n = false) ->
+       seq_script (render f) ch c q sizes = ideal_script (slice (bases r) s e) (slice (bases r) s e) sizes).
 Proof. exact read_range_gen. Qed.
 Print Assumptions fai_read_range.
 
 (** The same for File.Seq (the complete sequence). *)
 Theorem fai_read_whole :
-  forall f rs1 r rs2 sizes,
+  forall f rs1 r rs2 sizes ch c,
     wf f = true -> lines_fit (render f) = true -> f_recs f = rs1 ++ r :: rs2 ->
     exists idx q,
       newindex (render f) = Ok idx /\ file_seq idx (s_name r) = Ok q /\
-      seq_script (render f) q sizes = ideal_script (bases r) (bases r) sizes.
+      conforms (bases r) (bases r) sizes (seq_script (render f) ch c q sizes) = true /\
+      ((forall n, ch n = false) -> seq_script (render f) ch c q sizes = ideal_script (bases r) (bases r) sizes).
 Proof. exact read_whole_gen. Qed.
 Print Assumptions fai_read_whole.
 
-(** Reading to the end with any non-empty buffers: the bytes delivered up to
-    and including the first call that reports io.EOF are exactly bases s..e,
-    and io.EOF is reported. *)
+(** Reading to the end with any non-empty buffers over any conforming
+    ReaderAt: the bytes delivered up to and including the first call that
+    reports io.EOF are exactly bases s..e, and io.EOF is reported. *)
 Theorem fai_read_to_eof :
-  forall f rs1 r rs2 s e sizes,
+  forall f rs1 r rs2 s e sizes ch c,
     wf f = true -> lines_fit (render f) = true -> f_recs f = rs1 ++ r :: rs2 -> 0 <= s <= e -> e <= zlen (bases r) ->
     Forall (fun k => 1 <= k) sizes -> e - s < fold_right Z.add 0 sizes ->
     exists idx q,
       newindex (render f) = Ok idx /\ file_seqrange idx (s_name r) s e = Ok q /\
-      drain (seq_script (render f) q sizes) = Some (slice (bases r) s e).
+      drain (seq_script (render f) ch c q sizes) = Some (slice (bases r) s e).
 Proof. exact read_to_eof. Qed.
 Print Assumptions fai_read_to_eof.
 
 (** A record without sequence (length zero, whatever its layout fields):
     every script of reads behaves as the ideal reader over the empty string;
-    in particular no division by the zero line width. *)
+    in particular no division by the zero line width, and no ReadAt at all. *)
 Theorem fai_read_zero_length :
-  forall file e sizes, r_len e = 0 ->
-    seq_script file (mkSeq e 0 0 0) sizes = ideal_script [] [] sizes.
+  forall file ch c e sizes, r_len e = 0 ->
+    seq_script file ch c (mkSeq e 0 0 0) sizes = ideal_script [] [] sizes.
 Proof. exact read_zero_length. Qed.
 Print Assumptions fai_read_zero_length.
 
@@ -134,7 +149,12 @@ Example fai_example :
   /\ newindex (render f) = Ok [mkRec [97] 7 8 3 5; mkRec [101] 0 27 0 0; mkRec [34; 98] 2 32 2 2]
   /\ readfrom (writeto (index_of f)) = Ok (index_of f)
   /\ match file_seqrange (index_of f) [97] 2 7 with
-     | Ok q => seq_script (render f) q [2; 0; 10; 1] = [Ok ([71; 84], 0); Ok ([], 0); Ok ([65; 67; 71], 1); Ok ([], 1)]
+     | Ok q => seq_script (render f) lazy_eof O q [2; 0; 10; 1] = [Ok ([71; 84], 0); Ok ([], 0); Ok ([65; 67; 71], 1); Ok ([], 1)]
+     | _ => False
+     end
+  /\ match file_seq (index_of f) [34; 98] with
+     | Ok q => seq_script (render f) lazy_eof O q [2; 1] = [Ok ([78; 78], 0); Ok ([], 1)]
+               /\ seq_script (render f) eager_eof O q [2; 1] = [Ok ([78; 78], 1); Ok ([], 1)]
      | _ => False
      end.
 Proof. vm_compute. repeat split; reflexivity. Qed.
